@@ -329,6 +329,40 @@ def run_train(item: Tuple[int, int, int]) -> Tuple[Optional[str], str]:
     return (problems[0] if problems else None), f"train:{'bad' if problems else 'ok'}"
 
 
+# valid traffic: five well-formed queries on the timing grid that leaves emptied answer groups at the head of the
+# aggregation queue (the same answer asked again while its first batch is held to the 500 ms deadline), then another question
+VALID_LAST = {"ptrB": [("Q", TB, 12, 1)], "ptr+txt": [("Q", TA, 12, 1), ("Q", S1.name, 16, 1)]}
+
+
+def valid_schedules() -> List[Tuple[Tuple[int, int, int, int], str, Tuple[float, ...]]]:
+    out = []
+    for g1, g2, g4 in itertools.product((0, 1), (390, 450, 499), (400, 450, 499, 520)):
+        for js in itertools.product((0.0, 1.0), repeat=5):
+            for last in VALID_LAST:
+                out.append(((g1, g2, 0, g4), last, js))
+    return out
+
+
+def run_valid(item: Tuple[Tuple[int, int, int, int], str, Tuple[float, ...]]) -> Tuple[Optional[str], str]:
+    gaps, last, js = item
+    problems: List[str] = []
+    with World(rand=RandPolicy.seq([0.0] * 40, 0.0)) as w:
+        host, lst = busy_world(w)
+        w.advance(2600)  # the busy state has drained: what follows is ordinary traffic on an idle responder
+        w.rand = RandPolicy.seq(list(js), js[-1])
+        for k in range(5):
+            qs = [("Q", TA, 12, 1)] if k < 4 else VALID_LAST[last]
+            deliver(w, host, wire.query(qs, id_=0x60 + k), ("10.0.0.95", 5353))
+            if k < 4:
+                w.advance(gaps[k])
+        w.advance(700)
+        excs = w.exceptions()
+        if excs:
+            problems.append(f"exception: {excs[0][:300]}")
+        canary(w, host, lst, problems)
+    return (problems[0] if problems else None), f"valid:{'bad' if problems else 'ok'}"
+
+
 def run_stream(item: Tuple[List[Tuple[str, bytes]], int]) -> Tuple[Optional[str], str]:
     """One busy world, a stream of datagrams with clock steps between them."""
     chunk, variant = item
@@ -402,6 +436,11 @@ def run(tier: str, seed: int) -> Tuple[Stats, str, List[str], Dict[str, Any]]:
         record(problem, oc, {"mode": "train", "item": list(item),
                              "what": f"truncated-query train #{item[0]} from {SOURCES[item[1]]}, {item[2]} ms apart"})
     sizes["trains"] = len(tr)
+    vs = valid_schedules()
+    for item, (problem, oc) in zip(vs, pmap_iter(run_valid, vs, chunk=16)):
+        record(problem, oc, {"mode": "valid", "item": [list(item[0]), item[1], list(item[2])], "n": 6,
+                             "what": f"five well-formed queries {item[0]} ms apart, last {item[1]}, jitter draws {item[2]}"})
+    sizes["valid_schedules"] = len(vs)
     # all ordered pairs of one representative per (kind, decoder outcome class)
     reps: Dict[str, bytes] = {}
     for kind, d in corp:
@@ -435,6 +474,9 @@ def replay(data: Dict[str, Any]) -> int:
         problem, oc = run_cancel(tuple(data["item"]))
     elif data.get("mode") == "train":
         problem, oc = run_train(tuple(data["item"]))
+    elif data.get("mode") == "valid":
+        it = data["item"]
+        problem, oc = run_valid((tuple(it[0]), it[1], tuple(it[2])))
     else:
         problem, oc = run_stream(([("x", d) for d in data["chunk"]], data.get("variant", 0)))
     if problem:
